@@ -93,6 +93,25 @@ fn templates() -> Vec<Template> {
                 l("}", s(Stmt), s(Stmt)),
             ],
         },
+        // statements that begin with a negation once the formatter drops redundant parentheses:
+        // a line starting with `-` would continue the line before it, also across comment lines
+        Template {
+            name: "do-block-negation",
+            above: false,
+            lines: vec![
+                l("d = do {", s(Do), s(Do)),
+                l("  t = 1", s(Do), s(Do)),
+                l("  (-t)", s(Do), s(Do)),
+                l("  (-t) + 2", s(Do), s(Do)),
+                l("  return (-t)", None, None),
+                l("}", s(Stmt), s(Stmt)),
+            ],
+        },
+        Template {
+            name: "statements-negation",
+            above: true,
+            lines: vec![l("x = 1", s(Stmt), s(Stmt)), l("(-x) + 2", s(Stmt), s(Stmt)), l("(-x)", s(Stmt), s(Stmt)), l("y = 2", s(Stmt), s(Stmt))],
+        },
         Template {
             name: "nested",
             above: true,
@@ -425,11 +444,11 @@ pub fn run(ctx: &Ctx, replay: Option<&J>) -> i32 {
     ctx.sample(json!({"template": ts[4].name, "two_slots_doubled": s2}));
     ctx.require_outcome("case", 300);
     ctx.require_outcome("distinct-layout", 600);
-    ctx.assume("widths 1..45/70 and the default; comment positions are those annotated in the 18 line templates (every position the grammar admits a comment in for statements, lists, records, do-blocks, plus the silent-NEWLINE and empty-container positions)");
+    ctx.assume("widths 1..45/70 and the default; comment positions are those annotated in the 20 line templates (every position the grammar admits a comment in for statements, lists, records, do-blocks, plus the silent-NEWLINE and empty-container positions)");
     finish(
         ctx,
         "exploration",
-        "18 line templates (statements, lists with/without trailing comma, records, do-blocks, nested containers, silent-NEWLINE positions, empty containers) x comment slots (end of line / own line, annotated with the placement kind): the empty set, every single slot (also doubled), every pair, thorough: every triple, all slots, all slots doubled x every width 1..45/70 + default through format_blots (native shim) and once through blots --format; comment sequences extracted by an independent quote-aware scan; distinct = distinct commented sources",
+        "20 line templates (statements, lists with/without trailing comma, records, do-blocks, nested containers, silent-NEWLINE positions, empty containers) x comment slots (end of line / own line, annotated with the placement kind): the empty set, every single slot (also doubled), every pair, thorough: every triple, all slots, all slots doubled x every width 1..45/70 + default through format_blots (native shim) and once through blots --format; comment sequences extracted by an independent quote-aware scan; distinct = distinct commented sources",
         true,
         None,
     )
